@@ -254,7 +254,7 @@ func (g *pkgGen) config(i int) genOut {
 	}
 	c.Version = g.semver()
 	c.Epoch = g.pick([]string{"", "", "0", "2", "17"})
-	c.Release = g.pick([]string{"", "", "1", "2", "3.el9", "0"})
+	c.Release = g.pick([]string{"", "", "1", "2", "3.el9", "0", "01", "007", "+2"})
 	if g.chance(3) {
 		c.Prerelease = g.pick([]string{"beta1", "rc.1", "alpha-2"})
 	}
@@ -282,6 +282,10 @@ func (g *pkgGen) config(i int) genOut {
 	c.Umask = []os.FileMode{0, 0o002, 0o022, 0o077}[g.rng.Intn(4)]
 	c.Depends = g.relations(g.rng.Intn(4))
 	c.Provides = g.relations(g.rng.Intn(3))
+	if g.chance(3) {
+		// a package may provide its own name, with or without a version: an entry like any other
+		c.Provides = append(c.Provides, c.Name, c.Name+" = 0.9")
+	}
 	c.Replaces = g.relations(g.rng.Intn(3))
 	c.Recommends = g.relations(g.rng.Intn(3))
 	c.Suggests = g.relations(g.rng.Intn(3))
